@@ -62,7 +62,7 @@ ASSUMPTIONS = [
 EXHAUSTIVE = {"quick": False, "thorough": True}
 
 CATS = po.CATS
-VERDICTS = [["accept"], ["reject"], ["fault"], ["append", "!"], ["replace", "zz"]]
+VERDICTS = [["accept"], ["reject"], ["fault"], ["append", "!"], ["replace", "zz"]]  # the exhaustive tables; the sampled ones also prepend / produce hostile texts
 WORDS = ["hi", "bad", "boom", "x", "evil", "ok", ""]
 
 
@@ -78,9 +78,21 @@ def translate():
 # ----------------------------------------------------------------------------- generators
 
 def g_rule(rng, force=None):
-    v = force or rng.choice([["accept"], ["reject"], ["reject"], ["fault"], ["append", rng.choice(["!", " bad", " x", "evil"])], ["replace", rng.choice(["zz", "bad", "", "boom x"])]])
-    needle = rng.choice(["", "", "bad", "boom", "x", "evil", "!", "zz"])
+    v = force or rng.choice([["accept"], ["reject"], ["reject"], ["fault"], ["append", rng.choice(["!", " bad", " x", "evil"])], ["replace", rng.choice(["zz", "bad", "", "boom x"])],
+                             g_rewrite_hostile(rng)])
+    needle = rng.choice(["", "", "bad", "boom", "x", "evil", "!", "zz", "$", "{{", "\n", '"', " "])
     return [needle, v]
+
+
+def g_rewrite_hostile(rng):
+    """a rewriting rail whose RESULT looks like syntax of the runtime's plumbing (a `$`-text made by prefixing, a replacement
+    that names a context variable, a template, an empty / blank / multi-line text)"""
+    k = rng.random()
+    if k < 0.4:
+        return ["prepend", rng.choice(["$", "$", "$ ", "{{ ", '"', "\n", " ", "$bot_message ", "#"])]
+    if k < 0.8:
+        return ["replace", rng.choice(po.hostile_texts())]
+    return ["append", rng.choice([" }}", '"', "\n", " ", "$", "\nbad", " $user_message"])]
 
 
 def g_rail(rng, faults=True):
@@ -90,9 +102,30 @@ def g_rail(rng, faults=True):
     return rules
 
 
-def g_text(rng):
+def g_text(rng, hostile=0.3):
+    """a user text / supplied bot message: words with the trigger words of the rules, or (30 %) a text that looks like syntax
+    to some layer of the runtime (`po.hostile_texts()`: `$`-texts, names of context variables, templates, quotes, newlines,
+    blanks, the empty text, very long texts), sometimes with a trigger word behind it."""
+    if rng.random() < hostile:
+        t = rng.choice(po.hostile_texts())
+        if rng.random() < 0.2:
+            t += rng.choice([" bad", " evil", " x", "!", " boom"])
+        return t
     n = rng.choice([1, 1, 2, 3])
     return " ".join(rng.choice(WORDS) for _ in range(n)).strip() or rng.choice(["hi", "q"])
+
+
+def g_llm_text(rng, dialog="general"):
+    """what the fake LLM answers.  The generation actions post-process an LLM completion (strip, first line / quotes in the
+    flows mode) - that is not the property's subject, so LLM texts are hostile only where the completion is returned as it is:
+    `general` mode, no surrounding blanks, not empty, no leading quote."""
+    if dialog == "general":
+        for _ in range(4):
+            t = g_text(rng, hostile=0.3)
+            if t and t.strip() == t and not t.startswith('"') and "\n" not in t and "\r" not in t:
+                return t
+    t = g_text(rng, hostile=0)
+    return "t" + t if t.startswith('"') else t
 
 
 def g_cfg(rng, small):
@@ -137,9 +170,7 @@ def gen_e2e(rng, tier):
         for k in range(per_subset):
             base = rng.choice(cfgs)
             cfg = dict(base, input=[g_rail(rng) for _ in base["input"]], output=[g_rail(rng) for _ in base["output"]])
-            llm_text = g_text(rng)
-            if llm_text.startswith('"'):
-                llm_text = "t" + llm_text
+            llm_text = g_llm_text(rng, cfg["dialog"])
             cases.append(mk_e2e(cfg, None if s in (None, "NOOPT") else s, g_text(rng), rng.choice([None, g_text(rng), g_text(rng)]), llm_text, no_options=(s == "NOOPT"), form=g_form(rng)))
     if tier == "thorough":
         # exhaustive: all 16 subsets x all verdict tables (5 verdicts) for <= 2 rails per category, unconditional rules
@@ -161,7 +192,7 @@ def input_blocks(cfg, opts, user):
 
 
 def mk_call(rng, opts, cfg=None, no_options=False):
-    user = g_text(rng)
+    user = g_text(rng, hostile=0.2)
     bot = rng.choice([None, g_text(rng), g_text(rng)])
     if no_options:
         opts = None
@@ -171,7 +202,7 @@ def mk_call(rng, opts, cfg=None, no_options=False):
         # the bot message may only be left out when the input rails end the turn before it is needed
         if not (cfg is not None and input_blocks(cfg, opts, user) and rng.random() < 0.7):
             bot = g_text(rng)
-    llm_text = g_text(rng)
+    llm_text = g_llm_text(rng, (cfg or {}).get("dialog", "predef"))
     c = {"opts": opts, "user": user, "bot": bot, "llm_text": llm_text}
     if no_options:
         c["no_options"] = True  # `generate(messages)` without any options in the middle of the conversation
@@ -794,6 +825,7 @@ def tags(case, obs):
         if any(c.get("no_options") for c in case["calls"][1:]):
             t.append("call-without-options-after-calls-with")
         for c in case["calls"]:
+            t += ["seq-" + x for x in po.text_classes(c["user"]) + po.text_classes(c["bot"])]
             if not c.get("no_options"):
                 t.append("seq-form:" + c.get("form", "list"))
             if c["bot"] is None and c["opts"] is not None and "output" in c["opts"] and "dialog" not in c["opts"]:
@@ -813,6 +845,10 @@ def tags(case, obs):
     if capped(obs):
         return ["kind:e2e", "event-cap-hit"]
     t = ["kind:e2e", "opts:" + sel, "dialog:" + cfg["dialog"], "def:" + cfg["rail_def"], "n_in:%d" % len(cfg["input"]), "n_out:%d" % len(cfg["output"]), "form:" + case.get("form", "list")]
+    rails_only = case["opts"] is not None and not case.get("no_options") and "dialog" not in case["opts"]
+    t += [("user-" if rails_only else "user-dialog-") + x for x in po.text_classes(case["user"])] + ["bot-" + x for x in po.text_classes(case["bot"])]
+    if rails_only and obs.get("response") is not None and obs["response"] not in (po.REFUSAL, po.INTERNAL_ERROR):
+        t += ["reply-" + x for x in po.text_classes(obs["response"])]
     if cfg["dialog"] == "refuse" and obs.get("response") == po.REFUSAL and not any(r["stop"] for r in obs.get("rails", [])) and obs.get("llm_calls"):
         t.append("dialog-refusal-no-rail-blocked")
     if cfg.get("exceptions"):
@@ -892,3 +928,5 @@ def _shrink(case):
     for k in ("user", "bot", "llm_text"):
         if case.get(k) and len(case[k]) > 2:
             yield dict(case, **{k: case[k].split(" ")[0] or "q"})
+            if len(case[k]) > 8:
+                yield dict(case, **{k: case[k][: len(case[k]) // 2]})
